@@ -331,7 +331,8 @@ class Ctx(InterpMixin, ModelsMixin):
     def _check(self, *extra):
         t = time.time()
         self.eng.stats["branch_checks"] += 1
-        r = self.solver.check(*extra)
+        from .solve import guarded_check
+        r = guarded_check(self.solver, getattr(self, "_cur_budget_ms", self.eng.branch_timeout_ms), *extra)
         self.eng.stats["solver_time"] += time.time() - t
         return r
 
@@ -344,9 +345,11 @@ class Ctx(InterpMixin, ModelsMixin):
         if ra == z3.unsat:
             return z3.unsat
         self.solver.set("timeout", self.eng.branch_full_timeout_ms)
+        self._cur_budget_ms = self.eng.branch_full_timeout_ms
         try:
             r = self._check(extra)
         finally:
+            self._cur_budget_ms = self.eng.branch_timeout_ms
             self.solver.set("timeout", self.eng.branch_timeout_ms)
         if r == z3.unknown and not _mentions_strings(extra, self.pc):
             return r
@@ -438,14 +441,34 @@ class Ctx(InterpMixin, ModelsMixin):
         return self._check(z3.Not(cond)) == z3.unsat
 
     def model_value(self, term):
-        """A value of `term` in some model of the pc (or None)."""
-        if self._check() != z3.sat:
+        """A value of `term` in some model of the pc; None when the pc is unsatisfiable.  When the
+        solver cannot decide (unknown) the path is NOT dropped: the caller gets Unsupported."""
+        r = self._check()
+        if r == z3.unsat:
             return None
+        if r != z3.sat:
+            ra = self.arith.solver.check()
+            if ra == z3.sat:
+                try:
+                    v = self.arith.solver.model().eval(self.arith.abs(term), model_completion=True)
+                    if z3.is_int_value(v):
+                        return v            # a candidate only: callers confirm it with branch()
+                except Exception:  # noqa
+                    pass
+            raise Unsupported("solver could not produce a model of the path condition (unknown)")
         m = self.solver.model()
         return m.eval(term, model_completion=True)
 
-    def concretize_int(self, v, limit=70, what="value"):
+    def concretize_int(self, v, limit=70, what="value", domain=None):
         """Split a small-domain symbolic int by value: returns a concrete int on each path."""
+        if domain is not None and not isinstance(v, (bool, int)):
+            t = z3.simplify(v.term if not isinstance(v, SBool) else z3.If(v.term, 1, 0))
+            if z3.is_int_value(t):
+                return t.as_long()
+            for c in domain:
+                if self.branch(t == c):
+                    return c
+            raise PathEnd()
         if isinstance(v, bool):
             return int(v)
         if isinstance(v, int):
